@@ -389,6 +389,11 @@ def hard_cases(rnd, n=None, year=2001):
         S("Maize", "SandyLoam", seed=rnd.randrange(10 ** 6), regime="hot", iwc={"wc_type": "Pct", "value": [45]}, seasons=2, irr={"method": 5, "kw": {"depth": 1, "AppEff": 80}},
           events=[{"from": f"{year}/01/01", "to": f"{year + 1}/12/31", "P": 0, "ET0": 8.0}]),
     ]
+    cases += [
+        # a cold snap (transpiration reduced by cold stress) together with a storm that floods a bunded field under a developed canopy
+        S("Maize", "Clay", seed=rnd.randrange(10 ** 6), field={"bunds": True, "z_bund": 0.15},
+          events=[{"from": dstr(p0 + _dt.timedelta(days=58)), "to": dstr(p0 + _dt.timedelta(days=66)), "Tmax": 13.0, "Tmin": 5.0}] + [{"date": dstr(p0 + _dt.timedelta(days=60 + k)), "P": 80} for k in range(2)]),
+    ]
     # shallow ponds behind bunds under a canopy (pond of the order of a day's transpiration demand during the first days of submergence)
     cases += shallow_pond_cases(rnd, year, crops=("Maize", "Maize", "Tomato"), storms=(13, 22, 25))
     rnd.shuffle(cases)
